@@ -10,7 +10,7 @@ PROPS = {
     "C01": [r6.rule_R6_flags, r6.rule_R6_debug, r7.rule_T3, c10.rule_fixpoints, r15.rule_R15],
     "C02": [r7.rule_T1, r7.rule_translation_reading, r13.rule_births, r4.rule_R4d, r13.rule_R13_marks, r12.rule_R1c],
     "C06": [r7.rule_T3, r5.rule_token_intake, r7.rule_T1, r15.rule_R15],
-    "C09": [r6.rule_R6_debug, r5.rule_setters, r12.rule_R12, r15.rule_R15],
+    "C09": [r6.rule_R6_debug, r5.rule_setters, r12.rule_R12, r15.rule_R15, c10.rule_fixpoints],
     "C10": [c10.rule_code_table, c10.rule_fixpoints, r5.rule_undefined_typestate, r2e.rule_R2e, r5.rule_parse_entry],
     "C11": [c11.rule_implicit_codes, c11.rule_costs_and_replay, lexer.rule_R4b, r4.rule_R4a],
     "C12": [r14.rule_R14, r12.rule_R12, r4.rule_R4a, lexer.rule_R4b, r4.rule_R4c, r4.rule_R4d, r5.rule_setters, r3.rule_R3c],
